@@ -91,6 +91,7 @@ class Ctx:
         # one replay file per run, all violations inside, first one is the headline
         os.makedirs(os.path.join(WORK, "replay"), exist_ok=True)
         path = os.path.join(WORK, "replay", f"{self.prop}-{self.tier}-{self.seed}.json")
+        self.violations.sort(key=lambda v: (not v["concrete"], len(str(v["replay"].get("witness", "")))))
         concrete = [v for v in self.violations if v["concrete"]]
         head = (concrete or self.violations)[0]
         with open(path, "w") as f:
@@ -132,13 +133,12 @@ def lake_build(ctx, modules, what):
         for m in modules:
             res[m] = (True, "")
     else:
-        failed = set(re.findall(r"^- (\S+)", text, re.M)) | set(re.findall(r"✖ \[\d+/\d+\] Building (\S+)", text))
+        # find out which targets fail on their own
         for m in modules:
-            bad = m in failed or any(f for f in failed if f == m)
-            # a failing dependency also breaks the module
-            if not bad and failed:
-                bad = True
-            res[m] = (not bad, text[-3000:] if bad else "")
+            rc1, o1, e1 = sh(["lake", "build", m], cwd=LEAN, timeout=3000)
+            t1 = o1 + e1
+            errs = "\n".join(l for l in t1.split("\n") if l.startswith("error:") or "✖" in l)
+            res[m] = (rc1 == 0, (errs + "\n" + t1[-1500:]) if rc1 != 0 else "")
     for m in modules:
         ctx.oblige(f"lake build {m} ({what.get(m, 'kernel-checked')})", res[m][0], res[m][1])
     return res, text
